@@ -81,6 +81,52 @@ impl<T: Copy> Block for SrcWait<T> {
     }
 }
 
+/// A source in the style of a hardware / pipe source: every other call answers
+/// Pending without moving anything (data not there yet); the calls in between
+/// commit what fits and answer Again, or EOF with the last piece.
+pub struct SrcPending<T: Copy> {
+    dst: WriteStream<T>,
+    data: Vec<T>,
+    pos: usize,
+    ready: bool,
+}
+impl<T: Copy> SrcPending<T> {
+    pub fn new(data: Vec<T>) -> (Self, ReadStream<T>) {
+        let (dst, r) = new_stream();
+        (Self { dst, data, pos: 0, ready: false }, r)
+    }
+}
+impl<T: Copy> BlockName for SrcPending<T> {
+    fn block_name(&self) -> &str {
+        "SrcPending"
+    }
+}
+impl<T: Copy> BlockEOF for SrcPending<T> {}
+impl<T: Copy> Block for SrcPending<T> {
+    fn work(&mut self) -> rustradio::Result<BlockRet> {
+        if self.pos == self.data.len() {
+            return Ok(BlockRet::EOF);
+        }
+        if !self.ready {
+            self.ready = true;
+            return Ok(BlockRet::Pending);
+        }
+        let mut o = self.dst.write_buf()?;
+        if o.is_empty() {
+            return Ok(BlockRet::WaitForStream(&self.dst, 1));
+        }
+        let n = o.len().min(self.data.len() - self.pos);
+        o.fill_from_slice(&self.data[self.pos..self.pos + n]);
+        o.produce(n, &[]);
+        self.pos += n;
+        self.ready = false;
+        if self.pos == self.data.len() {
+            return Ok(BlockRet::EOF);
+        }
+        Ok(BlockRet::Again)
+    }
+}
+
 /// What a wrapped block should do on its k-th call.
 #[derive(Clone)]
 pub enum Inject {
@@ -145,6 +191,11 @@ pub fn build_chain(kinds: &[String], total: usize) -> (Vec<Box<dyn Block + Send>
         }
         "src_wait" => {
             let (b, o) = SrcWait::new(data);
+            blocks.push(Box::new(b));
+            o
+        }
+        "src_pending" => {
+            let (b, o) = SrcPending::new(data);
             blocks.push(Box::new(b));
             o
         }
